@@ -394,6 +394,11 @@ func (m *MonC04) OnEnd(w *World) []Violation {
 						m.class("trigger_between_grant_and_data")
 						m.nontriv = true
 					}
+					// the grant answered a request that carried the connection's then-current token
+					if want, _ := b.tokenAt(c.CID, valid.ReqT); !valid.IsHTTP && !sameToken(want, valid.Token) {
+						vs = append(vs, Violation{Property: "C04", Class: "grant_for_stale_token", Conn: c.Idx, RID: root, T: r.RespT, Step: w.stepOfT(r.RespT),
+							Message: fmt.Sprintf("c%d: response #%d (%s) handed %s on the access answer of t=%d, whose request (t=%d) carried token %s while the connection's token then was %s", c.Idx, id, r.Method, root, valid.T, valid.ReqT, orNone(valid.Token), orNone(want))})
+					}
 				}
 			}
 			// denial => error response
